@@ -58,7 +58,11 @@ func (c *RPCCollector) WriteResults() error {
 			panic(err)
 		}
 
+		// nodes may still be recording calls while results are written
+		node.mu.Lock()
 		b, err := json.Marshal(node.rate)
+		node.mu.Unlock()
+
 		if err != nil {
 			return err
 		}
@@ -69,7 +73,10 @@ func (c *RPCCollector) WriteResults() error {
 			return err
 		}
 
+		node.mu.Lock()
 		b, err = json.Marshal(node.calls)
+		node.mu.Unlock()
+
 		if err != nil {
 			return err
 		}
